@@ -8,7 +8,12 @@
      - always moves on realloc and fills fresh bytes with 0xA5 (canonical "indeterminate"),
      - keeps a ledger of live blocks (sizes are printed; "end live=<n>" at the end of a case).
    Built with -fsanitize=address,undefined: an out-of-block access aborts the process; the check
-   (checks/C06.py) turns the abort into a failing input. */
+   (checks/C06.py) turns the abort into a failing input.
+
+   With an argument ("c07") the driver also serves checks/C07_str.py: objects have a life cycle
+   (ctor T / new T / die T; operations on an absent object print r=skip), the caller's free of the
+   block returned by a_str_exit is part of the logged trace, "sched 110*" repeats its last digit
+   for ever, and "end" destroys what exists and prints the sizes of the blocks still live. */
 #if !defined _GNU_SOURCE
 #define _GNU_SOURCE
 #endif
@@ -25,7 +30,9 @@
 static struct { void *p; size_t n; } led[MAXBLK];
 static int nled;
 static char const *sched = "";
+static char sched_tail; /* '0' / '1': the answer once the schedule string is used up ("...*") */
 static int logging;
+static int c07;
 static char evbuf[4096];
 static size_t evlen;
 
@@ -72,6 +79,7 @@ static void *shim(void *addr, a_size size)
         return NULL;
     }
     if (*sched) { ok = (*sched++ == '1'); }
+    else if (sched_tail) { ok = (sched_tail == '1'); }
     if (!addr)
     {
         evlog("M%zu%c", (size_t)size, ok ? '+' : '-');
@@ -99,6 +107,8 @@ static void *shim(void *addr, a_size size)
 
 /* ------------------------------------------------------------------ parsing helpers */
 static a_str S[2];
+static a_str *P[2]; /* the object in slot A / B: &S[i] (stack), from a_str_new (heap), or NULL (absent) */
+static int heap[2];
 
 static int hexv(int c)
 {
@@ -159,7 +169,13 @@ static void print_hex(unsigned char const *p, size_t n)
 
 static void print_str(char const *name, a_str const *s)
 {
-    int i = s->ptr_ ? led_find(s->ptr_) : -1;
+    int i;
+    if (!s)
+    {
+        printf(" %s=3,0,0,0,-", name);
+        return;
+    }
+    i = s->ptr_ ? led_find(s->ptr_) : -1;
     printf(" %s=%d,%zu,%zu,", name, s->ptr_ ? (i >= 0 ? 1 : 2) : 0, (size_t)s->num_, (size_t)s->mem_);
     if (i >= 0)
     {
@@ -175,11 +191,27 @@ static int sign(int x) { return (x > 0) - (x < 0); }
 static unsigned char blob[1 << 16];
 static char ref[1 << 16];
 
-int main(void)
+static void set_sched(char *dst, size_t cap, char const *src)
+{
+    size_t n;
+    snprintf(dst, cap, "%s", src);
+    n = strlen(dst);
+    sched_tail = 0;
+    if (n >= 2 && dst[n - 1] == '*')
+    {
+        sched_tail = dst[n - 2];
+        dst[n - 1] = 0;
+    }
+    sched = dst;
+}
+
+int main(int argc, char **argv)
 {
     char *line = NULL;
     size_t cap = 0;
     long k = 0;
+    c07 = argc > 1;
+    (void)argv;
     a_alloc = shim;
     while (getline(&line, &cap, stdin) > 0)
     {
@@ -191,10 +223,12 @@ int main(void)
         if (strcmp(tok[0], "case") == 0)
         {
             static char schedbuf[4096];
-            schedbuf[0] = 0;
-            sched = schedbuf;
+            set_sched(schedbuf, sizeof(schedbuf), "");
             a_str_ctor(&S[0]);
             a_str_ctor(&S[1]);
+            P[0] = &S[0];
+            P[1] = &S[1];
+            heap[0] = heap[1] = 0;
             k = 0;
             printf("case %s\n", tok[1]);
             fflush(stdout);
@@ -203,42 +237,92 @@ int main(void)
         if (strcmp(tok[0], "sched") == 0)
         {
             static char schedbuf2[4096];
-            snprintf(schedbuf2, sizeof(schedbuf2), "%s", nt > 1 ? tok[1] : "");
-            sched = schedbuf2;
+            set_sched(schedbuf2, sizeof(schedbuf2), nt > 1 ? tok[1] : "");
             continue;
         }
         if (strcmp(tok[0], "end") == 0)
         {
+            int i;
             sched = "";
-            a_str_dtor(&S[0]);
-            a_str_dtor(&S[1]);
-            printf("end live=%d\n", nled);
+            sched_tail = 0;
+            for (i = 0; i < 2; ++i)
+            {
+                if (P[i] && heap[i]) { a_str_die(P[i]); }
+                else if (P[i]) { a_str_dtor(P[i]); }
+                P[i] = NULL;
+                heap[i] = 0;
+            }
+            printf("end live=%d", nled);
+            for (i = 0; i < nled; ++i) { printf("%c%zu", i ? ',' : ':', led[i].n); }
+            printf("\n");
             fflush(stdout);
             continue;
         }
         {
             char const *o = tok[0];
             int ti = (nt > 1 && tok[1][0] == 'B') ? 1 : 0;
-            a_str *t = &S[ti], *u = &S[1 - ti];
+            a_str *t = P[ti], *u = P[1 - ti];
+            int both = strcmp(o, "swap") == 0 || strcmp(o, "cmp") == 0 ||
+                       ((strcmp(o, "cat") == 0 || strcmp(o, "cat_") == 0) && tok[2][0] != '1');
+            int life = strcmp(o, "ctor") == 0 || strcmp(o, "new") == 0 || strcmp(o, "die") == 0;
+            if (strcmp(o, "swap") == 0)
+            {
+                t = P[0];
+                u = P[1];
+            }
             evlen = 0;
             evbuf[0] = 0;
             printf("%ld %s r=", k++, o);
             fflush(stdout);
             logging = 1;
-            if (strcmp(o, "dtor") == 0)
+            if (life)
+            {
+                if (strcmp(o, "ctor") == 0)
+                {
+                    if (t) { printf("skip"); }
+                    else
+                    {
+                        P[ti] = &S[ti];
+                        heap[ti] = 0;
+                        a_str_ctor(P[ti]);
+                        printf("v");
+                    }
+                }
+                else if (strcmp(o, "new") == 0)
+                {
+                    if (t) { printf("skip"); }
+                    else
+                    {
+                        P[ti] = a_str_new();
+                        heap[ti] = P[ti] != NULL;
+                        printf("i%d", P[ti] != NULL);
+                    }
+                }
+                else
+                {
+                    if (t && heap[ti]) { a_str_die(t); }
+                    else if (t) { a_str_dtor(t); }
+                    else { a_str_die(NULL); }
+                    P[ti] = NULL;
+                    heap[ti] = 0;
+                    printf("v");
+                }
+            }
+            else if (!t || (both && !u)) { printf("skip"); }
+            else if (strcmp(o, "dtor") == 0)
             {
                 a_str_dtor(t);
                 printf("v");
             }
             else if (strcmp(o, "swap") == 0)
             {
-                a_str_swap(&S[0], &S[1]);
+                a_str_swap(P[0], P[1]);
                 printf("v");
             }
             else if (strcmp(o, "exit") == 0)
             {
                 char *p = a_str_exit(t);
-                logging = 0;
+                logging = c07; /* C07: the caller's free belongs to the trace */
                 if (p)
                 {
                     int i = led_find(p);
@@ -358,8 +442,8 @@ int main(void)
             else if (strcmp(o, "cmp") == 0) { printf("i%d", sign(a_str_cmp(t, u))); }
             else { printf("BADOP"); }
             logging = 0;
-            print_str("A", &S[0]);
-            print_str("B", &S[1]);
+            print_str("A", P[0]);
+            print_str("B", P[1]);
             printf(" ev=%s\n", evlen ? evbuf : "-");
             fflush(stdout);
         }
